@@ -32,10 +32,11 @@ const (
 	Panicked                 // a goroutine panicked
 	Pruned                   // cut by the explorer (state cache); not a complete execution
 	Diverged                 // replay prefix could not be followed (nondeterminism) -> CHECK-BROKEN
+	Frontier                 // stopped at the frontier depth (the subtree is explored by a worker)
 )
 
 func (o Outcome) String() string {
-	return [...]string{"completed", "deadlock", "horizon", "panic", "pruned", "diverged"}[o]
+	return [...]string{"completed", "deadlock", "horizon", "panic", "pruned", "diverged", "frontier"}[o]
 }
 
 type gstate int8
